@@ -67,7 +67,7 @@ def cases(tier, seed):
             if N == 1:
                 perms = [tuple(range(k))]
             for perm in perms:
-                holds = ['body', 'tearDown', 'report']
+                holds = ['body', 'tearDown', 'report', 'report.stderr']
                 if N == 1:
                     holds = ['body']
                 for hold in holds:
@@ -91,7 +91,8 @@ def cases(tier, seed):
                 if feasible(perm, N):
                     break
             out.append({'idx': idx, 'k': k, 'N': N, 'perm': perm,
-                        'hold': rng.choice(['body', 'tearDown', 'report']),
+                        'hold': rng.choice(['body', 'tearDown', 'report',
+                                            'report.stderr']),
                         'verbose': rng.randint(0, 3),
                         'yseed': rng.randrange(1 << 30),
                         'wseed': rng.randrange(1 << 30)})
@@ -105,7 +106,8 @@ def cases(tier, seed):
                 if feasible(perm, N):
                     break
             out.append({'idx': idx, 'k': k, 'N': N, 'perm': perm,
-                        'hold': rng.choice(['body', 'tearDown', 'report']),
+                        'hold': rng.choice(['body', 'tearDown', 'report',
+                                            'report.stderr']),
                         'verbose': rng.randint(0, 3),
                         'yseed': rng.randrange(1 << 30),
                         'wseed': rng.randrange(1 << 30)})
@@ -204,11 +206,14 @@ def run_case(case):
                 before = perm[pos - 1]
                 pt = {'body': 'test.body:' + tids[name][-1],
                       'tearDown': 'layer.tearDown:' + name,
-                      'report': 'report'}[hold]
+                      'report': 'report',
+                      # after the child closed its stdout, before the
+                      # first byte of its report
+                      'report.stderr': 'report.stderr'}[hold]
                 h = {'point': pt, 'child_only': True,
                      'wait_for': ['reaped.' + full[before]], 'timeout': 30,
                      'tag': 'finish'}
-                if hold == 'report':
+                if hold in ('report', 'report.stderr'):
                     h['layer'] = full[i]
                 holds.append(h)
         plan = {'holds': holds}
